@@ -22,7 +22,6 @@ Record prims (R : st -> st -> Prop) : Prop := {
   p_rd : forall n s, R s (with_rd n s);
   p_now : forall n s, s_now s <= n -> R s (with_now n s);
   p_pending : forall p q s, R s (with_pending p q s);
-  p_hist : forall H s, R s (with_hist H s);
   p_cfg : forall C s, R s (with_cfg C s);
   p_enq : forall ev s, R s (with_queue (s_queue s ++ [ev]) s);
   p_complete : forall o s, R s (complete o s);
@@ -106,21 +105,6 @@ Section Frame.
   Lemma f_exec_actions eng pr acts ev : preserves R (fun s => exec_actions eng pr acts ev s).
   Proof. intros s. unfold exec_actions. destruct eng; try apply f_run_actions. simpl. apply f_pure_actions. Qed.
 
-  Lemma f_record_history m l s : R s (record_history m l s).
-  Proof.
-    unfold record_history. generalize (dedup (List.concat (map (anc_self m) l))). intros cands.
-    assert (H : forall s', R s s' -> R s (fold_left (fun s'0 p =>
-        if has_history_child m p then
-          match sort_by (lt_depth_id m) (filter (fun n => negb (Nat.eqb n p) && is_desc m n p) (s_cfg s)) with
-          | [] => s'0 | _ :: _ => with_hist (hist_set (s_hist s'0) p
-               (sort_by (lt_depth_id m) (filter (fun n => negb (Nat.eqb n p) && is_desc m n p) (s_cfg s)))) s'0 end
-        else s'0) cands s')).
-    { induction cands as [|p r IH]; intros s' Hs; simpl; [exact Hs|]. apply IH.
-      destruct (has_history_child m p); [|exact Hs].
-      destruct (sort_by _ _); [exact Hs|]. eapply Rtrans; [|apply (p_hist R P)]; [exact Hs]. }
-    apply H, Rrefl.
-  Qed.
-
   Lemma f_fire_on_done eng pr m fin s : R s (fire_on_done eng pr m fin s).
   Proof.
     unfold fire_on_done. destruct (find _ _).
@@ -188,6 +172,24 @@ Section Frame.
 
   Lemma f_leave x : preserves R (lift (fun s => if mem x (s_cfg s) then logo (OLeave x) (with_cfg (cdel x (s_cfg s)) s) else s)).
   Proof. apply pres_lift. intros s. destruct (mem x (s_cfg s)); [|apply Rrefl]. eapply Rtrans; [|(apply (p_log R P); reflexivity)]; [apply (p_cfg R P)]. Qed.
+
+  (* history is rewritten by _record_history only: everything above holds without this hypothesis *)
+  Hypothesis Hh : forall H s, R s (with_hist H s).
+
+  Lemma f_record_history m l s : R s (record_history m l s).
+  Proof.
+    unfold record_history. generalize (dedup (List.concat (map (anc_self m) l))). intros cands.
+    assert (H : forall s', R s s' -> R s (fold_left (fun s'0 p =>
+        if has_history_child m p then
+          match sort_by (lt_depth_id m) (filter (fun n => negb (Nat.eqb n p) && is_desc m n p) (s_cfg s)) with
+          | [] => s'0 | _ :: _ => with_hist (hist_set (s_hist s'0) p
+               (sort_by (lt_depth_id m) (filter (fun n => negb (Nat.eqb n p) && is_desc m n p) (s_cfg s)))) s'0 end
+        else s'0) cands s')).
+    { induction cands as [|p r IH]; intros s' Hs; simpl; [exact Hs|]. apply IH.
+      destruct (has_history_child m p); [|exact Hs].
+      destruct (sort_by _ _); [exact Hs|]. eapply Rtrans; [|apply Hh]; [exact Hs]. }
+    apply H, Rrefl.
+  Qed.
 
   Lemma f_exit_states eng pr m l ev : preserves R (exit_states eng pr m l ev).
   Proof.
@@ -258,6 +260,7 @@ End Frame.
 Section Frame2.
   Variable R : st -> st -> Prop.
   Hypothesis P : prims R.
+  Hypothesis Hh : forall H s, R s (with_hist H s).
   Hypothesis Pq : forall q s, R s (with_queue q s).
   Hypothesis Plog : forall o s, R s (logo o s).
 
@@ -271,8 +274,8 @@ Section Frame2.
     - destruct (s_queue s) as [|ev q]; [apply Rrefl|].
       apply (pres_bind R Rtrans).
       + apply pres_lift. intros s'. eapply Rtrans; [apply Pq|]. eapply Rtrans; apply Plog.
-      + apply (pres_bind R Rtrans); [apply (f_process_event R P)|].
-        apply (pres_bind R Rtrans); [apply (f_settle R P) | apply IH].
+      + apply (pres_bind R Rtrans); [apply (f_process_event R P Hh)|].
+        apply (pres_bind R Rtrans); [apply (f_settle R P Hh) | apply IH].
   Qed.
 
   Lemma f_async_step m ev s : R s (async_step m ev s).
@@ -281,7 +284,7 @@ Section Frame2.
     - eapply Rtrans; [apply (p_rd R P) | apply Plog].
     - set (s1 := logo _ (logo _ s)).
       assert (H1 : R s s1) by (eapply Rtrans; apply Plog).
-      pose proof (pres_bind R Rtrans _ _ (f_process_event R P Async true m ev) (f_settle R P (m_max_iter m) Async true m) s1) as H2.
+      pose proof (pres_bind R Rtrans _ _ (f_process_event R P Hh Async true m ev) (f_settle R P Hh (m_max_iter m) Async true m) s1) as H2.
       destruct ((process_event Async true m ev;; settle (m_max_iter m) Async true m) s1) as [s2 [e|]]; simpl in H2.
       + eapply Rtrans; [exact H1|]. eapply Rtrans; [exact H2 | apply Plog].
       + eapply Rtrans; [exact H1|]. destruct (Nat.eqb _ _); [eapply Rtrans; [exact H2 | apply (p_rd R P)] | exact H2].
